@@ -423,13 +423,14 @@ pub fn gen_plan(seed: u64, run: u64, cfg: Config, sys: &SysZones) -> Generated {
                         }
                     }
                 }
-                steps.push(Step::Conv(ConvStep {
-                    worker: r.usize(nworkers),
-                    api,
-                    t: probe(r, &hot),
-                    inject,
-                    faults,
-                }));
+                let worker = r.usize(nworkers);
+                let t = probe(r, &hot);
+                steps.push(Step::Conv(ConvStep { worker, api, t, inject, faults }));
+                // now and then the same value is asked again at once in the other direction
+                if r.chance(1, 6) {
+                    let api2 = if local { *r.pick(&UTC_APIS) } else { *r.pick(&LOCAL_APIS) };
+                    steps.push(Step::Conv(ConvStep { worker, api: api2, t, inject: vec![], faults: ConvFaults::default() }));
+                }
             }
             3 => {
                 if let Some(op) = gen_file_op(r, &paths, &file_zones) {
